@@ -97,3 +97,31 @@ def parse_many(harness, reqs, ddp=None, timeout=3600):
         except Exception:
             res.append({"result": "crash", "raw": o[:500], "diags": [], "faulty": None})
     return res
+
+
+def build_rtharness():
+    """C driver over the ASan/UBSan build of lib/runtime of the working tree"""
+    from . import pipeline
+    from .common import LOCALE
+    ddp = pipeline.build()
+    out = os.path.join(CACHE, "bin", "rtharness-" + os.path.basename(os.path.dirname(ddp)))
+    src = os.path.join(VERIF, "rtharness", "rt.c")
+    with lock("rtharness"):
+        if not os.path.exists(out) or os.path.getmtime(out) < os.path.getmtime(src):
+            cmd = ["gcc", "-O1", "-g", "-fsanitize=address,undefined", "-fsanitize-recover=address", "-fno-omit-frame-pointer",
+                   "-I" + os.path.join(ddp, "include"), "-o", out, src, "-Wl,--wrap=ddp_runtime_error",
+                   "-L" + os.path.join(ddp, "lib_asan"), "-lddpruntime", "-lm"]
+            p = run(cmd, timeout=600)
+            if p.returncode != 0:
+                raise RuntimeError("rtharness build failed:\n" + p.stderr[-3000:])
+            for f in os.listdir(os.path.dirname(out)):
+                if f.startswith("rtharness-") and os.path.join(os.path.dirname(out), f) != out:
+                    try:
+                        os.remove(os.path.join(os.path.dirname(out), f))
+                    except OSError:
+                        pass
+    env = dict(os.environ)
+    env["ASAN_OPTIONS"] = "halt_on_error=0:detect_leaks=0:handle_segv=0:handle_sigbus=0"
+    env["UBSAN_OPTIONS"] = "print_stacktrace=0"
+    env["LOCPATH"] = LOCALE
+    return out, env
